@@ -239,7 +239,8 @@ func (ps *exprParser) parseType() *Expr {
 		k := ps.parseType()
 		ps.expect("]")
 		v := ps.parseType()
-		return &Expr{Kind: "type", Name: "map[" + k.Name + "]" + v.Name}
+		prefix := strings.TrimSuffix(sb.String(), "map")
+		return &Expr{Kind: "type", Name: prefix + "map[" + k.Name + "]" + v.Name}
 	}
 	if ps.isOp(".") {
 		ps.p++
